@@ -165,6 +165,12 @@ def run_limited(fn, limit_s):
         os.close(r)
 
 
+class LibraryKeepsHanging(BaseException):
+    """Raised instead of LibraryDidNotTerminate from the fifth non-returning call of one run on: not an `Exception`, so no
+    `except Exception` of a sweep can absorb it — the run ends there (run_check records it), instead of paying the limit for
+    each of thousands of inputs that meet the same non-terminating code."""
+
+
 class LibraryDidNotTerminate(Exception):
     """Raised (by the watchdog) inside a call into the library that has not returned within the limit: a hang of the real code
     on a concrete input becomes an exception the sweep records like any other wrong outcome, instead of hanging the check."""
@@ -250,10 +256,14 @@ def install_watchdog(limit_s):
     def handler(signum, frame):
         # once one call has failed to return the run is a violation anyway: later calls get a shorter limit, so that a sweep
         # that meets the same non-terminating code on many inputs still finishes (the first one always gets the full limit)
+        if state.get('firing'):
+            # the timer repeats every second until the call is left (an `except` inside the call may have absorbed the first raise)
+            raise (LibraryKeepsHanging if state['hangs'] >= 5 else LibraryDidNotTerminate)(state['firing'])
         state['hangs'] += 1
         was = state['limit']
         state['limit'] = max(5.0, limit_s / 12.0)
-        raise LibraryDidNotTerminate(f'the call has not returned after {was:g} s')
+        state['firing'] = f'the call has not returned after {was:g} s'
+        raise (LibraryKeepsHanging if state['hangs'] >= 5 else LibraryDidNotTerminate)(state['firing'])
 
     def guard(fn):
         @functools.wraps(fn)
@@ -262,14 +272,15 @@ def install_watchdog(limit_s):
                 return fn(*a, **k)
             state['depth'] += 1
             old = signal.signal(signal.SIGALRM, handler)
-            signal.setitimer(signal.ITIMER_REAL, state['limit'])
+            state['firing'] = None
+            signal.setitimer(signal.ITIMER_REAL, state['limit'], 1.0)
             try:
                 r = fn(*a, **k)
                 if hasattr(r, '__next__') and not isinstance(r, (list, tuple)):
                     r = list(r)          # iselect: run the generator under the timer
                     return iter(r)
                 return r
-            except LibraryDidNotTerminate as e:
+            except (LibraryDidNotTerminate, LibraryKeepsHanging) as e:
                 signal.setitimer(signal.ITIMER_REAL, 0)
                 if not hasattr(e, 'call'):
                     e.call = describe_call(fn.__name__, a, k)
